@@ -188,10 +188,10 @@ def check_regions(regions_out, inputs, ctx, K, desc, case, check_presence=True):
     return True
 
 
-def make_inputs(line_idx):
+def make_inputs(line_idx, heights=None):
     from pero_ocr.layout_engines.layout_helpers import baseline_to_textline
     bs = [np.asarray(line_points(i), dtype=np.float64) for i in line_idx]
-    return [(b, baseline_to_textline(b, HEIGHTS)) for b in bs]
+    return [(b, baseline_to_textline(b, heights or HEIGHTS)) for b in bs]
 
 
 def check_assign(case, ctx):
@@ -227,8 +227,9 @@ SCENARIOS = [
     {0: ([0, 7, 8], [0, 10, 4, 9]), 1: ([0], [0]), 3: ([0], [9])},
     # one text row detected as a chain of three fragments (A-B and B-C close, A-C far apart) + a separate line, inside the wide rectangle
     {0: ([1, 9], ['f0', 'f1', 'f2', 'f3']), 1: ([], []), 3: ([], [])},        # region 9 receives no line at all
+    {0: ([1], ['z0']), 1: ([], []), 3: ([], []), 'heights': [0, 0]},           # a detection with zero heights (the height map is clamped at 0)
 ]
-FRAGMENTS = {'f0': [(8, 26), (14, 26.2)], 'f1': [(16, 26.2), (28, 26.6), (40, 26.2)], 'f2': [(42, 26.2), (50, 26)], 'f3': [(10, 36), (50, 36.4)]}
+FRAGMENTS = {'z0': [(10, 30), (50, 30)], 'f0': [(8, 26), (14, 26.2)], 'f1': [(16, 26.2), (28, 26.6), (40, 26.2)], 'f2': [(42, 26.2), (50, 26)], 'f3': [(10, 36), (50, 36.4)]}
 
 
 def line_points(i):
@@ -242,9 +243,10 @@ class StubEngine:
     def detect(self, img, rot=0):
         from pero_ocr.layout_engines.layout_helpers import baseline_to_textline
         regs, lines = self.s.get(rot, ([], []))
+        hts = self.s.get('heights', HEIGHTS)
         p = [np.asarray(REGIONS[i], dtype=np.float64) for i in regs]
         b = [np.asarray(line_points(i), dtype=np.float64) for i in lines]
-        return p, b, [list(HEIGHTS) for _ in b], [baseline_to_textline(x, HEIGHTS) for x in b]
+        return p, b, [list(hts) for _ in b], [baseline_to_textline(x, hts) for x in b]
 
     def detect_lines(self, img, polygon):
         import shapely.geometry as sg
@@ -271,7 +273,7 @@ def check_extractor(case, ctx):
     ctx.executed()
     rots = [0, 1, 3] if mo else [0]
     all_lines = sorted({i for r in rots for i in scen[r][1]}, key=str)
-    inputs = make_inputs(all_lines)
+    inputs = make_inputs(all_lines, scen.get('heights', HEIGHTS))
     desc = (f'LayoutExtractor(detect_regions={bool(dr)}, detect_lines={bool(dl)}, merge_lines={bool(ml)}, multi_orientation={bool(mo)}), '
             f'stub detections per rotation {scen}')
     key = f'{ID}/LayoutExtractor/' + ('regions-kept' if not dr else 'regions-detected') + ('+multi-orientation' if mo else '')
